@@ -190,6 +190,35 @@ def _prefix_chunk(chunk):
     return len(chunk), nt, fails
 
 
+def _yield_chunk(chunk):
+    """a subproject option declared `yield: true` follows the parent until the user names it; once it is given a value
+    explicitly (from whichever source, also a value equal to its declared default) that value wins"""
+    from mesonbuild.options import OptionStore, OptionKey, UserComboOption, UserStringOption
+    K = OptionKey
+    fails, nt = [], 0
+    for parent_val, explicit, source in chunk:
+        st = OptionStore(False)
+        st.add_system_option('prefix', UserStringOption('prefix', 'd', '/usr/local'))
+        st.add_project_option(K('x', ''), UserComboOption('x', 'd', 'a', choices=['a', 'b', 'c']))
+        top_pd = {K('x', 'sub'): explicit} if source == 'parent_subopt' and explicit else {}
+        cmd = {K('x', 'sub'): explicit} if source == 'cmd_subopt' and explicit else {}
+        mf = {K('x', 'sub'): explicit} if source == 'mf_subopt' and explicit else {}
+        cmd[K('x', '')] = parent_val
+        st.initialize_from_top_level_project_call(top_pd, cmd, mf)
+        st.add_project_option(K('x', 'sub'), UserComboOption('x', 'd', 'b', choices=['a', 'b', 'c'], yielding=True))
+        spc = {K('x'): explicit} if source == 'spcall_opt' and explicit else {}
+        st.initialize_from_subproject_call('sub', spc, {}, cmd, mf)
+        if source == 'configure' and explicit:
+            st.set_from_configure_command({K('x', 'sub'): explicit})
+        nt += explicit is not None
+        got = st.get_value_for('x', 'sub')
+        exp = explicit if explicit else parent_val
+        if got != exp:
+            fails.append({'case': {'parent_value': parent_val, 'explicit_sub_value': explicit, 'source': source}, 'stage': 'yield',
+                          'detail': f'sub:x resolves to {got!r}; ' + (f'the user gave sub:x={explicit!r} through {source}' if explicit else f'it yields to the parent value {parent_val!r}')})
+    return len(chunk), nt, fails
+
+
 def _key_chunk(chunk):
     """the facts about OptionKey that the merge contracts assume: evolve(subproject=s) sets the subproject and nothing
     else, is injective on global keys, as_root() is evolve(subproject=''), equal keys are interchangeable as dict keys"""
@@ -237,6 +266,10 @@ def run(REG, tier, seed, jobs):
     ev, nt, fails = pmap(_valid_chunk, chunked(iter(cases), 16), jobs)
     parts.append({'name': 'C07/bounded/invalid-rejected-stored-valid', 'function': 'OptionStore.set_option / UserOption.set_value', 'bound': f'{len(kinds)} option kinds x {len(values)} candidate values of all python types',
                   'evaluations': ev, 'distinct_nontrivial': nt, 'rule': 'every case is distinct', 'exhaustive': True, 'failures': fails})
+    ycases = [(pv, ex, src_) for pv in ('a', 'b', 'c') for ex in (None, 'a', 'b', 'c') for src_ in ('parent_subopt', 'spcall_opt', 'mf_subopt', 'cmd_subopt', 'configure')]
+    ev, nt, fails = pmap(_yield_chunk, chunked(iter(ycases), 10), jobs)
+    parts.append({'name': 'C07/bounded/yielding-option-explicit-value', 'function': 'OptionStore.set_option / get_option_and_value_for', 'bound': f'{len(ycases)} cases: parent value x explicit subproject value (none, or each choice incl. the declared default) x 5 sources',
+                  'evaluations': ev, 'distinct_nontrivial': nt, 'rule': 'non-trivial: an explicit value is given', 'exhaustive': True, 'failures': fails})
     ev, nt, fails = pmap(_key_chunk, chunked(iter([None, '', 'sub', 'other', 'x y']), 1), jobs)
     parts.append({'name': 'C07/bounded/OptionKey-facts-assumed-by-the-merge-contracts', 'function': 'OptionKey.evolve / as_root / __eq__ / __hash__', 'bound': '40 keys (5 names x 4 subprojects x 2 machines) x 5 target subprojects',
                   'evaluations': ev, 'distinct_nontrivial': nt, 'rule': 'every key', 'exhaustive': True, 'failures': fails})
@@ -250,5 +283,6 @@ def run(REG, tier, seed, jobs):
 
 CHECKS = {
     'C07/bounded/precedence-all-source-subsets': (_prec_chunk, lambda c: (c['kind'], c['mask'])),
+    'C07/bounded/yielding-option-explicit-value': (_yield_chunk, lambda c: (c['parent_value'], c['explicit_sub_value'], c['source'])),
     'C07/bounded/directory-defaults-follow-prefix': (_prefix_chunk, lambda c: (c['default_options'], c['machine_file'], c['command_line'], c['explicit_sysconfdir'])),
 }
